@@ -145,6 +145,7 @@ type vrfConsensus struct {
 	peers    []peer.ID
 	leader   peer.ID
 	trustAll bool
+	trusted  map[peer.ID]bool // per-peer trust (when set, used instead of trustAll)
 	rmPeers  []peer.ID
 	events   []string // "pin", "unpin", "rmpeer", "clean", "shutdown" in call order
 	rmFails  bool
@@ -220,7 +221,12 @@ func (c *vrfConsensus) Peers(context.Context) ([]peer.ID, error) {
 	}
 	return c.peers, nil
 }
-func (c *vrfConsensus) IsTrustedPeer(context.Context, peer.ID) bool   { return c.trustAll }
+func (c *vrfConsensus) IsTrustedPeer(_ context.Context, p peer.ID) bool {
+	if c.trusted != nil {
+		return c.trusted[p]
+	}
+	return c.trustAll
+}
 func (c *vrfConsensus) Trust(context.Context, peer.ID) error          { return nil }
 func (c *vrfConsensus) Distrust(context.Context, peer.ID) error       { return nil }
 
